@@ -40,6 +40,7 @@ func genC05(t *rapid.T) (C05Case, bool) {
 	cfg.MaxProtocols = 1
 	cfg.MaxDefs = 5
 	cfg.Computed = false
+	cfg.EvoShapesPct = 30
 	cfg.ArgRefPct = 35 // generics instantiated with named types that the edits may then change
 	m0 := model.GenPackage(t, &cfg)
 	c := C05Case{Versions: []*model.Package{m0}}
